@@ -2,6 +2,7 @@
 import p_piecestore
 import p_wire
 import p_metadata
+import p_geometry
 
 HOOK_COMMITS = ["ad8b203", "23d7fe8", "8de280d"]
 
@@ -14,6 +15,12 @@ _PS_NOTE = ("Trusted: TLC, the Go harness (gate scheduler, content PRF, projecti
 _B4 = "TLC-enumerated case table (TLA+ decision function over boundary classes) executed on the real code, outcomes checked by TLC against the specification's invariants"
 
 REGISTRY = {
+    "C13": {"run": p_geometry.run, "design": "DESIGN.md section 3 C13", "technique": _B4,
+            "level": "Geometry.tla maps an abstract metainfo record to Reject or Accept(geometry); TLC checks the accepted geometries are "
+                     "self-consistent and enumerates ~1600 records; each is bencoded and read by tor.ReadTorrent; accepted torrents are compared "
+                     "with the specified geometry, their info-hash with SHA-1 of the raw info bytes, and WriteTorrent->ReadTorrent must preserve hash, "
+                     "tracker tiers and web seeds; TLC re-evaluates consistency on every observed geometry.",
+            "note": "Trusted: TLC, the harness bencoder. Record classes, not all byte strings; magnet links not enumerated."},
     "C12": {"run": p_metadata.run, "design": "DESIGN.md section 3 C12",
             "technique": "TLC exhaustive model checking of Metadata.tla + replay of TLC behaviours through tor.handleEvent + TLC trace validation",
             "level": "Metadata.tla (votes, guess with random tie-break, resize, block checks, over-long copies, hash, parse) is model-checked "
